@@ -577,6 +577,23 @@ func checkGoroutines(c *Check) {
 					fa := p.FA(fn)
 					path, _ := fa.ReachAfter(g, func(x ssa.Instruction) bool { _, ok := x.(*ssa.Return); return ok }, ReachOpts{Barrier: func(x ssa.Instruction) bool { _, ok := x.(*ssa.Defer); return ok }})
 					c.Req(okSel && okDefer && path == nil, name, p.InstrPos(g), key, "quit channel: the goroutine selects on it and the spawner signals it on every return", fmt.Sprintf("selects=%v deferred-send=%v", okSel, okDefer))
+					// the dual: the spawner's signal is a blocking send on an unbuffered channel, so the goroutine may end ONLY by
+					// taking it — every return of the body lies behind the select
+					bfa := p.FA(body)
+					nret := 0
+					for _, r := range Returns(body) {
+						nret++
+						okp, pth := bfa.PrecededBy(r, func(x ssa.Instruction) bool { _, ok := x.(*ssa.Select); return ok })
+						c.Req(okp, p.Name(body), p.InstrPos(r), nthKey(key+":exit-only-on-quit", nret), "the helper goroutine ends only by receiving the quit signal: an earlier return leaves the spawner blocked for ever in its deferred send (the switchover that called it never returns, is never counted, never times out)", "path to this return without the select: "+bfa.PathString(pth))
+					}
+					// and the channel really is unbuffered or the send blocking: record which
+					for _, bb := range fn.Blocks {
+						for _, x := range bb.Instrs {
+							if m, ok := x.(*ssa.MakeChan); ok {
+								c.Req(p.T(m.Size).IsConst("0"), name, p.InstrPos(m), key+":unbuffered", "the quit channel is unbuffered (the send is a rendezvous; with a buffer the goroutine could outlive the call)", "size "+p.T(m.Size).String())
+							}
+						}
+					}
 				case "(*app.App).startSyncerGoroutine":
 					c.Req(selectsOn(body, ctxDone), name, p.InstrPos(g), key, "context: the loop selects on the context whose cancel the spawner's caller defers (C19.SPAWN)", "")
 				case fnRun:
